@@ -176,6 +176,71 @@ def write_inputs(tmp: str, case: dict[str, Any]) -> dict[str, str]:
     return paths
 
 
+def same_process_part(ctx: Ctx, tmp: str, quick: bool) -> None:
+    """both routes in ONE interpreter, as a user's script would run them: otel2puml on two workflows that use the same
+    event names (one plain AND fork, one whose root makes the first call once or twice), then otel2pv -se, then pv2puml
+    per workflow.  The plain workflow's two diagrams must have one language (the other carries branch counts, which the
+    Lean semantics does not model: its model files are compared)."""
+    r = ctx.rng
+    for k in range(3 if quick else 20):
+        names = r.choice([["checkout", "refund"], ["b flow", "a flow"], ["wf1", "wf2"]])
+        plain, counted = names[0], names[1]
+        if r.random() < 0.5:
+            plain, counted = counted, plain
+        spans = []
+
+        def trace(n: str, jid: str, base: int, bcount: int) -> None:
+            st = T0 + base
+            mk = lambda typ, eid, a, b, par: {"job_name": n, "job_id": jid, "event_type": typ, "event_id": eid,  # noqa: E731
+                                               "start_timestamp": str(st + a), "end_timestamp": str(st + b),
+                                               "application_name": "app", "parent_event_id": par}
+            spans.append(mk("SA", f"{jid}.r", 0, 9000, None))
+            for c in range(bcount):
+                spans.append(mk("SB", f"{jid}.b{c}", 100 + 10 * c, 2000 + 10 * c, f"{jid}.r"))
+            spans.append(mk("SC", f"{jid}.c", 150, 2500, f"{jid}.r"))          # overlaps the SB calls
+            spans.append(mk("SD", f"{jid}.d", 3000, 3500, f"{jid}.r"))
+        for t in range(2):
+            trace(plain, f"{plain}-p{t}", (k * 10 + t) * 10**7, 1)
+        for t, n in enumerate([1, 2]):
+            trace(counted, f"{counted}-c{t}", (k * 10 + 5 + t) * 10**7, n)
+        case = {"names": [plain, counted], "spans": spans, "async": True, "mapping": None, "k": 10_000 + k, "seq_opts": {}}
+        p = write_inputs(tmp, case)
+        w = pvlib.Worker(0)
+        try:
+            def cli(argv: list[str]) -> dict[str, Any]:
+                w.send({"op": "cli", "argv": argv, "timeout": 120})
+                return w.recv()
+            r1 = cli(["-o", os.path.join(p["dir"], "out1"), "otel2puml", "-om", "-c", p["config"]])
+            r2 = cli(["-o", os.path.join(p["dir"], "out2"), "otel2pv", "-c", p["config"], "-se"])
+            r3 = {n: cli(["-o", os.path.join(p["dir"], "out3"), "pv2puml", "-om", "-fp", os.path.join(p["dir"], "out2", n),
+                          "-jn", n]) for n in (plain, counted)}
+        finally:
+            w.close()
+        ctx.tick("same_process_cases")
+        inp = {"spans": spans, "names": [plain, counted], "async": True, "same_process": True}
+        if any("error" in x or x.get("exit") for x in [r1, r2, *r3.values()]):
+            ctx.violation("a command fails when both routes run in one interpreter: "
+                          + " / ".join(str(x.get("error") or x.get("output", ""))[-80:] for x in [r1, r2, *r3.values()]
+                                       if "error" in x or x.get("exit")), {"input": inp}, key=("sameproc", k))
+            continue
+        stem = plain.replace(" ", "_")
+        with open(os.path.join(p["dir"], "out1", stem + ".puml")) as f1, \
+                open(os.path.join(p["dir"], "out3", stem + ".puml")) as f3:
+            t1, t3 = f1.read(), f3.read()
+        pa, pb = pvlib.lean([{"op": "dg.parse", "text": t1}, {"op": "dg.parse", "text": t3}])
+        bad = None
+        if pa.get("ok") != pb.get("ok"):
+            bad = "only one of the two routes gives a well-formed diagram"
+        elif pa.get("ok") and json.dumps(norm_blk(pa["blk"])) != json.dumps(norm_blk(pb["blk"])):
+            sub = pvlib.lean([{"op": "dg.subset", "learned": pa["blk"], "source": pb["blk"], "k": 2, "cap": 200},
+                              {"op": "dg.subset", "learned": pb["blk"], "source": pa["blk"], "k": 2, "cap": 200}])
+            if any(x.get("rejected") for x in sub):
+                bad = "otel2puml and otel2pv+pv2puml give diagrams with different languages"
+        if bad:
+            ctx.violation(f"both routes in one interpreter, workflow {plain!r} (next to {counted!r}, same event names): {bad}",
+                          {"input": inp, "otel2puml": t1, "pv2puml": t3}, key=("sameproc", k))
+
+
 def run(ctx: Ctx) -> None:
     ctx.prove(["O2P.Props.C14"], THEOREMS)
     if ctx.tier == "thorough":
@@ -190,6 +255,7 @@ def run(ctx: Ctx) -> None:
     )
     tmp = tempfile.mkdtemp(prefix="o2p14_")
     try:
+        same_process_part(ctx, tmp, quick)
         cases = [gen_case(ctx, k) for k in range(24 if quick else 200)]
         for c in cases:
             c["paths"] = write_inputs(tmp, c)
